@@ -15,6 +15,14 @@ def gen_cases(chk):
     for i in range(n_random):
         cases.append(cc.gen_case(rng, len(cases), max_ops=8 if quick else 12, max_samplers=4 if quick else 6,
                                  rl=(i % 7 == 3), fault=(i % 9 == 4)))
+    # round 4: losses that differ by one unit in the last place, at the 1e8 level and next to zero (the returned pairs must be
+    # ordered by the exact loss values), and a simulation length different from the length of the real data
+    for i, c in enumerate(cases):
+        if i % 5 == 1 and c["cfg"]["prec"] is None:
+            k0 = rng.below(len(TOKEN_TIES))
+            c["palette"] += [TOKEN_TIES[(k0 + j) % len(TOKEN_TIES)] for j in range(rng.randint(2, 5))]
+        if i % 4 == 2:
+            c["cfg"]["sim_length"] = rng.choice([3, 5, 2])
     # ensemble x batch-size grid (separates np.repeat from np.tile, rows from members)
     for E in range(1, 5):
         for bs in range(1, 6):
@@ -24,6 +32,23 @@ def gen_cases(chk):
             c["ops"] = [["calibrate", 2], ["calibrate", 1]]
             cases.append(c)
     return cases
+
+
+# consecutive entries are neighbours (or nearly): a palette slice always holds a near-tie; all positive (fit for the RL reward)
+TOKEN_TIES = [1.0 - 2.0 ** -53, 1.0, 1.0 + 2.0 ** -52, 1.0000001, 1.00000011, 1e8, 1e8 + 2.0 ** -26, 0.3, 0.1 + 0.2, 123456.789,
+              123456.78900000002]
+
+
+def oracle_with_length(c, o):
+    """C02's oracle on the token traces + `with the configured simulation length` (round 4)."""
+    fails = cf.oracle_c02(c, o)
+    want = c["cfg"].get("sim_length") or 2
+    for k, v in enumerate(o["views"]):
+        if v["series_shape"] != [v["nsampled"], c["cfg"]["E"], want, 1]:
+            fails.append(("series-of-param", f"op {k}: series record of shape {v['series_shape']}, configured simulation length {want}, "
+                                             f"ensemble {c['cfg']['E']}, {v['nsampled']} rows"))
+            break
+    return fails
 
 
 def nontrivial(c, o):
@@ -219,25 +244,709 @@ def tiny_space_runs(chk, stats):
     return n
 
 
+# ====================================================================================================================
+# Round 4 (generator sweep): audited runs.  The real Calibrator is run with real built-in samplers (plus samplers returning
+# float32 / int64 / Fortran-ordered / read-only arrays), real schedulers (round-robin, RL with a reward-driven agent), models
+# and losses in many representations, and every component is instrumented: what each sampler returned, which sampler the
+# scheduler designated, every model invocation (vector, length, seed, output) and every loss invocation (series, real data,
+# value) is logged, and every clause of the property is judged on the logs - independently of the Coq model.
+# C11 re-uses the same instrumentation with faults injected (props/c11.py).
+# ====================================================================================================================
+_A = None          # the audit in force (the instrumented components report to it)
+_ACLS = {}
+GRID_LO, GRID_HI, GRID_STEP = 0.0, 4.0, 0.0625        # all grid values are exact in float32; the integers 0..4 are on the grid
+
+
+def audited_model(theta, N, seed):  # noqa: N803
+    return _A.on_model("a", theta, N, seed)
+
+
+def audited_model_b(theta, N, seed):  # noqa: N803
+    """a second model object: what `calibrator.model = other_model` installs"""
+    return _A.on_model("b", theta, N, seed)
+
+
+def remote_model(theta, N, seed):  # noqa: N803
+    """a picklable model for n_jobs > 1 (runs in worker processes, cannot log): the output encodes the vector, the length and
+    the seed it was given, so that the association can be judged from the recorded series alone"""
+    import numpy as np
+
+    r = np.random.default_rng(int(seed))
+    out = r.random((N, 2)) + float(theta[0]) * 8.0 + float(theta[-1])
+    out[0, 0] = float(seed)
+    out[0, 1] = float(len(theta)) + 0.001 * N
+    return out
+
+
+def _audited_class(base):
+    name = "Aud" + base.__name__
+    if name not in _ACLS:
+        def sample(self, search_space, existing_points, existing_losses, _base=base):
+            return _A.on_sample(self, lambda: _base.sample(self, search_space, existing_points, existing_losses))
+
+        cls = type(name, (base,), {"sample": sample})
+        cls.__module__ = __name__
+        globals()[name] = cls
+        _ACLS[name] = cls
+    return _ACLS[name]
+
+
+def _audited_scheduler_class(base):
+    name = "Aud" + base.__name__
+    if name not in _ACLS:
+        def get_next_sampler(self, _base=base):
+            s = _base.get_next_sampler(self)
+            _A.on_designate(s)
+            return s
+
+        cls = type(name, (base,), {"get_next_sampler": get_next_sampler})
+        cls.__module__ = __name__
+        globals()[name] = cls
+        _ACLS[name] = cls
+    return _ACLS[name]
+
+
+def _repr_class(fmt):
+    """A user sampler returning grid points as float32 / int64 / Fortran-ordered / read-only / strided arrays."""
+    from black_it.samplers.base import BaseSampler
+
+    name = f"Repr{fmt}Sampler"
+    if name not in _ACLS:
+        def sample_batch(self, batch_size, search_space, existing_points, existing_losses, _fmt=fmt):
+            import numpy as np
+
+            g = self.random_generator
+            x = np.stack([g.choice(ax, size=int(batch_size)) for ax in search_space.param_grid], axis=1)
+            if _fmt == "f32":
+                return x.astype(np.float32)
+            if _fmt == "i64":
+                return np.floor(x).astype(np.int64)
+            if _fmt == "F":
+                return np.asfortranarray(x)
+            if _fmt == "strided":
+                big = np.zeros((2 * len(x), x.shape[1]))
+                big[::2] = x
+                return big[::2]
+            x.setflags(write=False)      # "ro"
+            return x
+
+        cls = type(name, (BaseSampler,), {"sample_batch": sample_batch})
+        cls.__module__ = __name__
+        globals()[name] = cls
+        _ACLS[name] = cls
+    return _ACLS[name]
+
+
+REPR_KINDS = ["repr-f32", "repr-i64", "repr-F", "repr-strided", "repr-ro"]
+PLAIN_KINDS = ["halton", "rseq", "uniform"]                 # do not read the loss history
+HISTORY_KINDS = ["bestbatch", "pso", "cors"]                # read it (finite losses only)
+RESIZABLE = set(PLAIN_KINDS) | set(REPR_KINDS)                # batch_size may be reassigned after construction
+
+
+def make_audited_sampler(kind, bs, seed, np_int=False):
+    import numpy as np
+
+    from props import real_lineups as rl
+
+    b = np.int64(bs) if np_int else int(bs)
+    if kind.startswith("repr-"):
+        fmt = kind[5:]
+        s = _repr_class(fmt)(b, seed, max_deduplication_passes=0 if fmt == "ro" else 2)
+    else:
+        s = rl.make_sampler(kind, b, seed)
+    s.__class__ = _audited_class(type(s))
+    return s
+
+
+# ---------------------------------------------------------------------------------------------------- models and losses
+MODEL_KINDS = ["plain", "f32", "i64", "list", "fortran", "transposed", "strided", "readonly", "extreme", "far", "mutating"]
+EXTREME_VALUES = [float("inf"), float("-inf"), float("nan"), 1.7e308, -1.7e308, 5e-324, -0.0, 2.2250738585072014e-308]
+
+
+def run_model_kind(kind, D, theta, N, seed):  # noqa: N803
+    """All model kinds compute the same base series from (theta, N, seed) and differ in the representation they return."""
+    import numpy as np
+
+    r = np.random.default_rng(int(seed))
+    x = r.random((N, D)) + float(theta[0]) * 10.0 + np.arange(D) + 0.125 * len(theta)
+    if kind == "plain":
+        return x
+    if kind == "f32":
+        return x.astype(np.float32)
+    if kind == "i64":
+        return (x * 100.0).astype(np.int64)
+    if kind == "list":
+        return x.tolist()
+    if kind == "fortran":
+        return np.asfortranarray(x)
+    if kind == "transposed":
+        return np.ascontiguousarray(x.T).T
+    if kind == "strided":
+        big = np.zeros((2 * N, D))
+        big[::2] = x
+        return big[::2]
+    if kind == "readonly":
+        x.setflags(write=False)
+        return x
+    if kind == "extreme":
+        for j in range(min(x.size, 1 + int(seed) % 4)):
+            x.flat[(int(seed) // 7 + 3 * j) % x.size] = EXTREME_VALUES[(int(seed) + j) % len(EXTREME_VALUES)]
+        return x
+    if kind == "far":
+        return x + 1e8
+    if kind == "mutating":
+        theta *= 0.5          # a careless user model rescaling its parameter vector in place
+        theta += 0.25
+        return x
+    if kind == "badshape":    # a model answering with one period too many (only used by C11: a batch that cannot be recorded)
+        return np.vstack((x, x[:1]))
+    raise ValueError(kind)
+
+
+NEAR_TIES = [1.0, 1.0 + 2.0 ** -52, 1.0 - 2.0 ** -53, 1e8, 1e8 + 2.0 ** -26, 0.0, -0.0, 5e-324, 1e-310, 1e308, 0.1 + 0.2, 0.3,
+             123456.789, 123456.78900000002, 1.0000001, 1.00000011]
+EXTREME_LOSSES = [float("inf"), float("-inf"), float("nan"), 1e39, -1e39]
+
+
+class AuditLoss:
+    """The configured loss: forwards to the loss under audit, reporting (series, real data, value) to the audit in force."""
+
+    def __init__(self, kind, D, salt=0):  # noqa: N803
+        self.kind, self.D, self.salt, self.k = kind, D, salt, 0
+        self.inner = None
+        if kind in ("mink", "filters"):
+            from black_it.loss_functions.minkowski import MinkowskiLoss
+
+            if kind == "mink":
+                self.inner = MinkowskiLoss()
+            else:
+                self.inner = MinkowskiLoss(p=1, coordinate_weights=[0.5 + 0.25 * i for i in range(D)],
+                                           coordinate_filters=[(_double if i % 2 == 0 else None) for i in range(D)])
+
+    def value(self, sim, real):
+        import numpy as np
+
+        k = self.k
+        self.k += 1
+        if self.inner is not None:
+            return self.inner.compute_loss(sim, real)
+        s = float(np.nansum(np.clip(np.asarray(sim, dtype=float), -1e3, 1e3))) + float(np.sum(real)) * 0.5
+        base = 0.5 + abs(s * 1.0000001 + self.salt) % 5.0           # finite, >= 0.5: also fit for the RL reward
+        if self.kind == "sum":
+            return base
+        if self.kind == "f32":
+            return np.float32(base)
+        if self.kind == "0d":
+            return np.array(base)
+        if self.kind == "int":
+            return int(base * 1000)
+        if self.kind == "neartie":
+            return NEAR_TIES[(k * 7 + self.salt) % len(NEAR_TIES)]
+        if self.kind == "extremeloss":
+            pool = NEAR_TIES + EXTREME_LOSSES
+            return pool[(k * 5 + self.salt) % len(pool)]
+        raise ValueError(self.kind)
+
+    def compute_loss(self, sim, real):
+        return _A.on_loss(self, sim, real)
+
+
+def _double(x):
+    return x * 2.0
+
+
+FINITE_LOSSES = ["sum", "f32", "0d", "int", "mink", "filters"]
+
+
+class Audit:
+    """Logs of one Calibrator's components and the oracle of C02 on them."""
+
+    def __init__(self, D, n_expected, model_kind, remote=False):  # noqa: N803
+        self.D, self.N, self.remote = D, n_expected, remote
+        self.model_kinds = {"a": model_kind, "b": model_kind}
+        self.cal = None
+        self.real = None
+        self.events = []           # one per batch the scheduler designated a sampler for
+        self.failed_events = []    # batches that raised (C11)
+        self.prev = None
+        self.labels_seen = []
+        # fault injection (C11): (kind, index within the current calibrate call[, sampler position]) -> exception factory
+        self.plan = {}
+        self.counters = {"model": 0, "loss": 0}
+        self.sampler_counters = {}
+        self.raised = []
+        self.badshape_fired = False
+
+    # ------------------------------------------------------------------ callbacks
+    def begin_call(self, plan=None):
+        self.plan = dict(plan or {})
+        self.counters = {"model": 0, "loss": 0}
+        self.sampler_counters = {}
+        self.raised = []
+        self.badshape_fired = False
+
+    def _maybe_raise(self, key):
+        mk = self.plan.get(key)
+        if mk is not None:
+            e = mk()
+            self.raised.append(e)
+            raise e
+
+    def on_designate(self, sampler):
+        cal = self.cal
+        label = cal.samplers_id_table.get(type(sampler).__name__) if cal is not None else None
+        self.events.append({"designated": sampler, "label": label, "rows": None, "model": [], "loss": [], "sampled_by": None,
+                            "in_lineup": cal is None or any(s is sampler for s in cal.scheduler.samplers)})
+
+    def on_sample(self, sampler, call):
+        import numpy as np
+
+        pos = [i for i, s in enumerate(self.cal.scheduler.samplers) if s is sampler]
+        pos = pos[0] if pos else -1
+        k = self.sampler_counters.get(pos, 0)
+        self.sampler_counters[pos] = k + 1
+        ks = self.counters.get("sample", 0)          # sample() calls of this calibrate() call, whichever the sampler
+        self.counters["sample"] = ks + 1
+        self._maybe_raise(("sampler", k, pos))
+        self._maybe_raise(("sample", ks))
+        out = call()
+        if not self.events or self.events[-1]["rows"] is not None:
+            # sample() called without a designation: record it as an event of its own so that the oracle reports it
+            self.events.append({"designated": None, "label": None, "rows": None, "model": [], "loss": [], "sampled_by": None})
+        ev = self.events[-1]
+        ev["rows"] = np.array(out, dtype=np.float64, copy=True)
+        ev["sampled_by"] = sampler
+        ev["bs_at_call"] = int(sampler.batch_size)
+        return out
+
+    def on_model(self, tag, theta, N, seed):  # noqa: N803
+        import numpy as np
+
+        k = self.counters["model"]
+        self.counters["model"] = k + 1
+        th = np.array(theta, dtype=np.float64, copy=True)
+        self._maybe_raise(("model", k))
+        out = run_model_kind(self.model_kinds[tag], self.D, theta, N, seed)
+        if self.plan.get(("badshape", k)):
+            self.badshape_fired = True
+            out = run_model_kind("badshape", self.D, theta, N, seed)
+        if self.events:
+            try:
+                snap = np.array(out, dtype=np.float64, copy=True)
+            except ValueError:
+                snap = None
+            self.events[-1]["model"].append({"theta": th, "N": int(N), "seed": int(seed), "out": snap, "tag": tag})
+        return out
+
+    def on_loss(self, loss, sim, real):
+        import numpy as np
+
+        k = self.counters["loss"]
+        self.counters["loss"] = k + 1
+        sim_bytes = np.array(sim, dtype=np.float64, copy=True).tobytes()
+        self._maybe_raise(("loss", k))
+        v = loss.value(sim, real)
+        if self.events:
+            self.events[-1]["loss"].append({"sim": sim_bytes, "real_ok": real is self.cal.real_data and real is self.real,
+                                            "value": np.float64(np.asarray(v, dtype=np.float64)).tobytes(), "obj": loss})
+        return v
+
+    # ------------------------------------------------------------------ oracle
+    def end_call(self, raised):
+        """A calibrate() call is over: a batch that raised is not part of the history."""
+        if raised and self.events and not self._complete(self.events[-1]):
+            self.failed_events.append(self.events.pop())
+
+    def _complete(self, ev):
+        E = int(self.cal.ensemble_size)
+        return ev["rows"] is not None and len(ev["loss"]) == len(ev["rows"]) and (self.remote or len(ev["model"]) == len(ev["rows"]) * E)
+
+    def snapshot(self):
+        cal = self.cal
+        return {"params": cal.params_samp.copy(), "losses": cal.losses_samp.copy(), "series": cal.series_samp.copy(),
+                "bnums": cal.batch_num_samp.copy(), "methods": cal.method_samp.copy()}
+
+    def verify(self, returned=None):
+        """-> list of (clause, detail).  Judges the whole recorded history against the logs."""
+        import numpy as np
+
+        cal = self.cal
+        E = int(cal.ensemble_size)
+        fails = []
+        snap = self.snapshot()
+        rows_exp = sum(len(ev["rows"]) for ev in self.events if ev["rows"] is not None)
+        lens = {k: len(v) for k, v in snap.items()}
+        lens["counter"] = int(cal.n_sampled_params)
+        if set(lens.values()) != {rows_exp}:
+            fails.append(("aligned", f"records have lengths {lens}; the samplers returned {rows_exp} rows in the "
+                                     f"{len(self.events)} completed batches"))
+            return fails
+        if int(cal.current_batch_index) != len(self.events):
+            fails.append(("batch-label", f"batch counter {int(cal.current_batch_index)} after {len(self.events)} completed batches"))
+        if snap["params"].dtype != np.float64 or snap["losses"].dtype != np.float64:
+            fails.append(("param-proposed", f"the parameter / loss records have dtypes {snap['params'].dtype} / {snap['losses'].dtype}: rows "
+                                            "recorded earlier were converted (the records are float64 arrays)"))
+            return fails
+        if snap["series"].shape[1:] != (E, self.N, self.D) or snap["series"].dtype != np.float64:
+            fails.append(("series-of-param", f"series record of shape {snap['series'].shape} / dtype {snap['series'].dtype}, expected "
+                                             f"(rows, {E}, {self.N}, {self.D}) float64 (configured simulation length {self.N})"))
+            return fails
+        i = 0
+        for b, ev in enumerate(self.events):
+            if ev["designated"] is None or ev["sampled_by"] is not ev["designated"]:
+                fails.append(("method-label", f"batch {b}: sample() was called on {type(ev['sampled_by']).__name__}, the scheduler had designated "
+                                              f"{type(ev['designated']).__name__}"))
+            if not ev.get("in_lineup", True):
+                fails.append(("method-label", f"batch {b}: the designated {type(ev['designated']).__name__} object is not in the scheduler's "
+                                              "current line-up (a sampler of a replaced line-up was used)"))
+            if not self.remote and len(ev["model"]) != len(ev["rows"]) * E:
+                fails.append(("series-of-param", f"batch {b}: {len(ev['rows'])} rows x ensemble {E} but the model was run {len(ev['model'])} times"))
+                return fails
+            if len(ev["loss"]) != len(ev["rows"]):
+                fails.append(("loss-of-series", f"batch {b}: {len(ev['rows'])} rows but the loss was evaluated {len(ev['loss'])} times"))
+                return fails
+            for r, row in enumerate(ev["rows"]):
+                where = f"row {i} (batch {b}, row {r} of {type(ev['sampled_by']).__name__})"
+                if snap["params"][i].tobytes() != row.tobytes():
+                    fails.append(("param-proposed", f"{where}: recorded vector {snap['params'][i]} but the sampler proposed {row}"))
+                for e in range(E):
+                    if self.remote:
+                        got = snap["series"][i, e]
+                        seed = got[0, 0]
+                        ok = seed == int(seed) and 0 <= seed < 2 ** 32
+                        if ok:
+                            want = remote_model(snap["params"][i], self.N, int(seed))
+                            ok = want.tobytes() == got.tobytes()
+                        if not ok:
+                            fails.append(("series-of-param", f"{where} member {e}: the recorded series is not a run of the model on "
+                                                             f"{snap['params'][i]} with length {self.N}"))
+                        continue
+                    c = ev["model"][r * E + e]
+                    if c["theta"].tobytes() != row.tobytes():
+                        fails.append(("series-of-param", f"{where} member {e}: model run number {r * E + e} of the batch was on {c['theta']}, "
+                                                         f"not on the proposed {row}"))
+                    if c["N"] != self.N:
+                        fails.append(("series-of-param", f"{where}: model run with length {c['N']}, configured simulation length {self.N}"))
+                    if c["out"] is None or c["out"].shape != (self.N, self.D) or snap["series"][i, e].tobytes() != c["out"].tobytes():
+                        fails.append(("series-of-param", f"{where} member {e}: recorded series differ from what the model returned "
+                                                         f"(model kind {self.model_kinds[c['tag']]})"))
+                lc = ev["loss"][r]
+                if lc["sim"] != snap["series"][i].tobytes():
+                    fails.append(("loss-of-series", f"{where}: the loss was evaluated on other series than the recorded ones"))
+                if not lc["real_ok"]:
+                    fails.append(("loss-of-series", f"{where}: the loss was not evaluated against the calibrator's real data"))
+                if lc["obj"] is not self.loss_in_force(b):
+                    fails.append(("loss-of-series", f"{where}: evaluated by a loss object other than the configured one"))
+                if snap["losses"][i].tobytes() != lc["value"]:
+                    fails.append(("loss-of-series", f"{where}: recorded loss {snap['losses'][i]!r} is not the value the loss returned "
+                                                    f"({np.frombuffer(lc['value'])[0]!r})"))
+                inner = lc["obj"].inner
+                if inner is not None:
+                    again = type(lc["obj"])(lc["obj"].kind, self.D).inner.compute_loss(snap["series"][i], self.real_at(b))
+                    if np.float64(again).tobytes() != snap["losses"][i].tobytes():
+                        fails.append(("loss-of-series", f"{where}: recorded loss {snap['losses'][i]!r} but a fresh {lc['obj'].kind} loss of the "
+                                                        f"recorded series is {again!r}"))
+                if int(snap["bnums"][i]) != b:
+                    fails.append(("batch-label", f"{where}: labelled batch {int(snap['bnums'][i])}"))
+                if ev["label"] is None or int(snap["methods"][i]) != ev["label"]:
+                    fails.append(("method-label", f"{where}: sampler id {int(snap['methods'][i])}, the designated sampler's id is {ev['label']}"))
+                i += 1
+            if fails:
+                break
+        if self.remote and not fails:
+            seeds = [float(s[0, 0]) for row in snap["series"] for s in row]
+            if len(set(seeds)) != len(seeds):
+                fails.append(("series-of-param", "two recorded series are the same model run (same seed): not one run per ensemble member"))
+        if self.prev is not None:
+            for key, old in self.prev.items():
+                if snap[key][: len(old)].tobytes() != old.tobytes() or len(snap[key]) < len(old):
+                    fails.append(("append-only", f"{key}: rows recorded earlier have changed"))
+        if returned is not None:
+            p, l = returned
+            l = np.asarray(l)
+            finite = l[~np.isnan(l)]
+            if len(p) != len(l) or np.any(finite[1:] < finite[:-1]):
+                fails.append(("returned-sorted", f"returned losses are not in increasing order: {l.tolist()[:12]}"))
+            got = sorted((np.asarray(a, dtype=np.float64).tobytes(), np.float64(b).tobytes()) for a, b in zip(p, l))
+            want = sorted((a.tobytes(), b.tobytes()) for a, b in zip(snap["params"], snap["losses"]))
+            if got != want:
+                fails.append(("returned-pairs", "the returned (parameter, loss) pairs are not the recorded ones"))
+        self.prev = snap
+        return fails
+
+    # the loss / real data in force when batch b ran (they may be reassigned between calls)
+    def loss_in_force(self, b):
+        obj = None
+        for b0, o in self.loss_epochs:
+            if b0 <= b:
+                obj = o
+        return obj
+
+    def real_at(self, b):
+        arr = None
+        for b0, a in self.real_epochs:
+            if b0 <= b:
+                arr = a
+        return arr
+
+
+def gen_audit_spec(rng, idx, quick):
+    """One audited scenario (JSON-able)."""
+    family = ["repr", "model-repr", "loss-repr", "simlen", "reassign", "rl", "many-params", "extreme", "reuse", "history"][idx % 10]
+    d = rng.choice([1, 2, 2, 3])
+    D = rng.choice([1, 2, 3])
+    L = rng.choice([3, 4, 5, 8])
+    spec = {"family": family, "d": d, "D": D, "L": L, "sim_length": None, "E": rng.randint(1, 3), "E_np": False, "sched": "rr",
+            "model": "plain", "loss": "sum", "verbose": bool(rng.below(4) == 0), "seed": rng.below(2 ** 31), "salt": rng.below(100),
+            "kinds": [], "ops": [], "n_jobs": 1}
+    nk = rng.randint(1, 3)
+    pool = PLAIN_KINDS + HISTORY_KINDS
+    if family == "repr":
+        pool = REPR_KINDS + PLAIN_KINDS
+        spec["E_np"] = bool(rng.below(2))
+    elif family == "model-repr":
+        spec["model"] = MODEL_KINDS[(idx // 10) % len(MODEL_KINDS)]
+        if spec["model"] in ("fortran", "transposed"):
+            spec["D"] = D = rng.choice([2, 3])
+    elif family == "loss-repr":
+        spec["loss"] = ["f32", "0d", "int", "neartie", "mink", "filters", "neartie"][(idx // 10) % 7]
+        if spec["loss"] == "neartie":
+            spec["verbose"] = bool(rng.below(2))
+    elif family == "simlen":
+        spec["sim_length"] = rng.choice([1, 2, L - 1, L + 1, L + 3, 2 * L, L])
+        spec["model"] = rng.choice(["plain", "list", "f32"])
+    elif family == "rl":
+        spec["sched"] = "rl"
+        spec["loss"] = rng.choice(["sum", "mink", "sum"])
+        pool = PLAIN_KINDS + HISTORY_KINDS
+        nk = rng.randint(1, 3)
+    elif family == "many-params":
+        spec["d"] = d = rng.choice([11, 12, 13])
+        pool = PLAIN_KINDS + ["bestbatch"]
+    elif family == "extreme":
+        spec["loss"] = "extremeloss"
+        spec["model"] = rng.choice(["extreme", "far", "plain"])
+        pool = PLAIN_KINDS + REPR_KINDS
+    elif family == "history":
+        spec["loss"] = rng.choice(FINITE_LOSSES)
+    if family == "reassign":
+        pool = PLAIN_KINDS + REPR_KINDS + ["bestbatch"]
+    if spec["loss"] in ("neartie", "extremeloss"):
+        pool = PLAIN_KINDS + REPR_KINDS
+    if spec["loss"] in ("mink", "filters") and spec["sim_length"] not in (None, L):
+        spec["loss"] = "sum"
+    if spec["loss"] in ("mink", "filters") and spec["model"] == "extreme":
+        spec["model"] = "far"
+    for j in range(nk):
+        kind = rng.choice(pool)
+        bs = rng.randint(1, 4)
+        if kind in HISTORY_KINDS and (j == 0 or spec["sched"] == "rl"):
+            # a history-driven sampler needs at least batch_size evaluated points: it never opens a round-robin line-up, and under
+            # the RL scheduler (bootstrap batch of one point, then any order) it has batch size 1
+            if spec["sched"] == "rl":
+                bs = 1
+            else:
+                kind = rng.choice(PLAIN_KINDS)
+        if j == 0 and spec["sched"] != "rl":
+            bs = 4
+        spec["kinds"].append([kind, bs, bool(family == "repr" and rng.below(2))])
+    if spec["sched"] == "rl" and not any(k[0] == "halton" for k in spec["kinds"]) and rng.below(2):
+        spec["kinds"][rng.below(len(spec["kinds"]))][0] = "halton"
+    # operations
+    ncalls = rng.randint(2, 3 if quick else 4)
+    for c in range(ncalls):
+        spec["ops"].append(["cal", rng.randint(0, 3) if c else rng.randint(1, 3)])
+        if family == "reassign" and c < ncalls - 1:
+            what = rng.choice(["loss", "model", "real", "bs", "verbose", "loss", "bs", "samplers"])
+            if what == "loss":
+                spec["ops"].append(["set", "loss", rng.choice(["f32", "int", "sum", "neartie"]), rng.below(100)])
+            elif what == "model":
+                spec["ops"].append(["set", "model", rng.choice(["f32", "list", "far", "strided"])])
+            elif what == "real":
+                spec["ops"].append(["set", "real", rng.below(1000)])
+            elif what == "verbose":
+                spec["ops"].append(["set", "verbose"])
+            elif what == "samplers":
+                spec["ops"].append(["set", "samplers", [[rng.choice(PLAIN_KINDS + REPR_KINDS), rng.randint(1, 3), False]
+                                                        for _ in range(rng.randint(1, 3))]])
+            else:
+                cand = [i for i, k in enumerate(spec["kinds"]) if k[0] in RESIZABLE]
+                if cand:
+                    spec["ops"].append(["set", "bs", rng.choice(cand), rng.randint(1, 5)])
+    if family == "reuse":
+        spec["ops"].append(["reuse", {"E": rng.randint(1, 3), "L": rng.choice([3, 6, 9]), "sim_length": rng.choice([None, 2, 7]),
+                                      "D": rng.choice([1, 2, 3])}])
+        spec["ops"].append(["cal", rng.randint(1, 3)])
+        spec["ops"].append(["cal", rng.randint(1, 2)])
+        spec["kinds"] = [k for k in spec["kinds"] if k[0] != "pso"] or [["halton", 2, False]]   # a swarm is tied to one run
+    return spec
+
+
+def build_audited(spec, audit, samplers=None, loss=None, saving_folder=None):
+    """-> (calibrator, samplers, loss); `samplers` / `loss` given = the objects of an earlier calibrator, used again."""
+    import contextlib
+    import io
+    import warnings
+
+    import numpy as np
+    from black_it.calibrator import Calibrator
+    from black_it.schedulers.round_robin import RoundRobinScheduler
+
+    global _A
+    _A = audit
+    d, D, L = spec["d"], spec["D"], spec["L"]
+    real = np.random.default_rng(spec["seed"] % 9973).random((L, D)) * 3.0 + np.arange(D)
+    if samplers is None:
+        samplers = [make_audited_sampler(k, bs, 11 + i, np_int) for i, (k, bs, np_int) in enumerate(spec["kinds"])]
+    if loss is None:
+        loss = AuditLoss(spec["loss"], D, spec["salt"])
+    if spec["sched"] == "rl":
+        from black_it.schedulers.rl.agents.epsilon_greedy import MABEpsilonGreedy
+        from black_it.schedulers.rl.envs.mab import MABCalibrationEnv
+        from black_it.schedulers.rl.rl_scheduler import RLScheduler
+
+        n_act = len(samplers) + 1        # the audited Halton subclass is not `HaltonSampler` itself: a bootstrap sampler is always added
+        agent = MABEpsilonGreedy(n_actions=n_act, alpha=0.2, eps=0.3, initial_values=1.0, random_state=5)
+        sched = _audited_scheduler_class(RLScheduler)(samplers, agent, MABCalibrationEnv(n_act))
+        for s in sched.samplers:
+            if not type(s).__name__.startswith("Aud"):
+                s.__class__ = _audited_class(type(s))
+    else:
+        sched = _audited_scheduler_class(RoundRobinScheduler)(samplers)
+    E = np.int64(spec["E"]) if spec.get("E_np") else spec["E"]
+    model = remote_model if audit.remote else audited_model
+    with contextlib.redirect_stdout(io.StringIO()), warnings.catch_warnings():
+        warnings.simplefilter("ignore")
+        cal = Calibrator(loss_function=loss, real_data=real, model=model, parameters_bounds=[[GRID_LO] * d, [GRID_HI] * d],
+                         parameters_precision=[GRID_STEP] * d, ensemble_size=E, scheduler=sched, sim_length=spec["sim_length"],
+                         verbose=spec["verbose"], saving_folder=saving_folder, random_state=spec["seed"], n_jobs=spec.get("n_jobs", 1))
+    audit.cal, audit.real = cal, real
+    audit.loss_epochs = [(0, loss)]
+    audit.real_epochs = [(0, real)]
+    return cal, samplers, loss
+
+
+def run_audit_spec(spec):
+    """-> (list of (clause, detail), stats dict)"""
+    import contextlib
+    import io
+    import warnings
+
+    import numpy as np
+
+    global _A
+    stats = {}
+    n_exp = spec["sim_length"] if spec["sim_length"] is not None else spec["L"]
+    audit = Audit(spec["D"], n_exp, spec["model"], remote=spec.get("n_jobs", 1) > 1)
+    cal, samplers, loss = build_audited(spec, audit)
+    fails = []
+    try:
+        for op in spec["ops"]:
+            if op[0] == "cal":
+                audit.begin_call()
+                with contextlib.redirect_stdout(io.StringIO()), warnings.catch_warnings(), np.errstate(all="ignore"):
+                    warnings.simplefilter("ignore")
+                    if spec["sched"] == "rl":
+                        ret = cc.call_with_watchdog(lambda n=op[1]: cal.calibrate(n), timeout=120.0)
+                    else:
+                        ret = cal.calibrate(op[1])
+                audit.end_call(False)
+                got = audit.verify(ret)
+                stats["batches"] = stats.get("batches", 0) + op[1]
+                if got:
+                    fails += [(c, f"after {op}: {m}") for c, m in got]
+                    break
+            elif op[0] == "set":
+                b = int(cal.current_batch_index)
+                if op[1] == "loss":
+                    loss = AuditLoss(op[2], spec["D"], op[3])
+                    cal.loss_function = loss
+                    audit.loss_epochs.append((b, loss))
+                elif op[1] == "model":
+                    cal.model = audited_model_b
+                    audit.model_kinds["b"] = op[2]
+                elif op[1] == "real":
+                    real = np.random.default_rng(op[2]).random(cal.real_data.shape) * 2.0
+                    cal.real_data = real
+                    audit.real = real
+                    audit.real_epochs.append((b, real))
+                elif op[1] == "verbose":
+                    cal.verbose = not cal.verbose
+                elif op[1] == "bs":
+                    if op[2] < len(samplers) and spec["kinds"][op[2]][0] in RESIZABLE:
+                        samplers[op[2]].batch_size = op[3]
+                elif op[1] == "samplers":
+                    spec = dict(spec, kinds=op[2])
+                    samplers = [make_audited_sampler(k, bs, 41 + i, np_int) for i, (k, bs, np_int) in enumerate(op[2])]
+                    cal.set_samplers(samplers)
+            elif op[0] == "reuse":
+                cc.release_threads(cal)
+                s2 = dict(spec, **op[1])
+                n_exp = s2["sim_length"] if s2["sim_length"] is not None else s2["L"]
+                audit = Audit(s2["D"], n_exp, spec["model"])
+                # the SAME sampler objects and the SAME loss object serve a second calibrator (other data length, ensemble, ...)
+                cal, samplers, loss = build_audited(s2, audit, samplers=samplers, loss=loss if loss.inner is None else None)
+                spec = s2
+    finally:
+        cc.release_threads(cal)
+        _A = None
+    return fails, stats
+
+
+def audited_runs(chk, stats, only=None):
+    rng = chk.rng
+    quick = chk.tier == "quick"
+    n = 0
+    specs = [only] if only is not None else [gen_audit_spec(rng, i, quick) for i in range(110 if quick else 1100)]
+    if only is None:
+        for j in range(2 if quick else 6):           # n_jobs > 1: the model runs in worker processes
+            s = gen_audit_spec(rng, 10 * j, quick)   # family "repr"
+            s.update(n_jobs=2, D=2, family="n_jobs", E=2 + j % 2, loss="sum", E_np=False)
+            s["kinds"] = [[k, max(2, bs), False] for k, bs, _ in s["kinds"]]
+            specs.append(s)
+    for spec in specs:
+        fails, st = run_audit_spec(spec)
+        n += 1
+        stats[f"audit:{spec['family']}"] += 1
+        stats["audit:batches"] += st.get("batches", 0)
+        stats[f"audit:model={spec['model']}"] += 1
+        stats[f"audit:loss={spec['loss']}"] += 1
+        seen = set()
+        for clause, detail in fails:
+            if clause in seen:
+                continue
+            seen.add(clause)
+            chk.violation({"kind": "oracle", "clause": clause, "with": "audit", "family": spec["family"]},
+                          {"failed": f"oracle:{clause}", "detail": detail, "case": {"audit": spec}})
+    return n
+
+
 def run(chk, replay=None):
     chk.proof_gate()
     if replay:
         cases = [json.loads(open(replay).read())["case"]]
-        if "extreme" in cases[0] or "dtype" in cases[0] or "tiny" in cases[0]:
+        only = cases[0].get("audit")
+        if "extreme" in cases[0] or "dtype" in cases[0] or "tiny" in cases[0] or only is not None:
             cases = []
     else:
+        only = None
         cases = gen_cases(chk)
-    obs, bad, stats, keys, nontriv = cf.run_traces(chk, cases, cf.oracle_c02, nontrivial, label="C02")
+    obs, bad, stats, keys, nontriv = cf.run_traces(chk, cases, oracle_with_length, nontrivial, label="C02")
     n_ext = extreme_runs(chk, stats)
     n_ext += dtype_runs(chk, stats)
     n_ext += tiny_space_runs(chk, stats)
+    n_aud = audited_runs(chk, stats, only=only) if (only is not None or not replay) else 0
     cov = {
-        "evaluations": len(cases) + n_ext, "distinct": len(keys), "distinct_nontrivial": len(nontriv),
+        "evaluations": len(cases) + n_ext + n_aud, "audited_scenarios": n_aud, "distinct": len(keys), "distinct_nontrivial": len(nontriv),
         "extreme_value_batches_with_real_samplers": n_ext,
         "rule": "random operation sequences {calibrate(n), create_checkpoint, restore, set_samplers, set_scheduler} on the real "
                 "Calibrator with token samplers/model/loss (1-6 samplers, batch sizes 1-4, ensemble 1-3, RR and RL schedulers, some "
                 "with an injected fault) plus the ensemble(1-4) x batch-size(1-5) grid; non-trivial = at least 2 batches and one "
-                "operation other than calibrate; distinct = distinct case description",
+                "operation other than calibrate; distinct = distinct case description; one token case in five has losses one ulp apart "
+                "in its palette, one in four a simulation length other than the data length; plus real-sampler runs (extreme losses, "
+                "real-data dtypes, exhausted spaces) and the audited runs of round 4 (every sampler / scheduler / model / loss invocation "
+                "logged; families: sampler-output and model-output representations, loss-value representations, sim_length, reassigned "
+                "attributes, RL with a reward-driven agent, > 10 parameters, extreme values, reuse by a second calibrator, n_jobs=2)",
         "samples": cf.sample_cases(cases, obs),
         "traces_validated_against_impl": len(cases) - len(bad), "model_impl_disagreements": len(bad),
         "distribution": dict(sorted(stats.items())),
